@@ -75,6 +75,7 @@ func TestC18(t *testing.T) {
 		e.runGovHooks(out)
 		e.runXC(out)
 		e.runAttRouter(out)
+		e.runEvmRes(out)
 	}
 }
 
@@ -126,6 +127,15 @@ func (e *env) runBCI(out *hx.Out, round int) {
 			cfgs = append(cfgs, bciCfg{same, rf, ntok, f, f != "insufficient" && e.rng.Intn(4) == 0})
 		}
 	}
+	// every revert payload shape over the rounds (the empty reason in every round), with and without a write before the revert
+	for j, sh := range e.shapesOfRound() {
+		cfgs = append(cfgs, bciCfg{j%2 == 0, 0, 1 + e.rng.Intn(3), "revert:" + sh, false})
+	}
+	for _, f := range []string{"badjump", "underflow"} {
+		if round%2 == 0 || hx.Tier() != "quick" {
+			cfgs = append(cfgs, bciCfg{e.rng.Intn(2) == 0, 0, 1 + e.rng.Intn(2), f, false})
+		}
+	}
 	// always include the two distinguishing configurations, and the disabled pair at the first / a middle / the last of three
 	cfgs = append(cfgs, bciCfg{false, 1000, 2, "revert", false}, bciCfg{false, 0, 2, "storerevert", false})
 	for idx := 0; idx < 3; idx++ {
@@ -143,6 +153,10 @@ func (e *env) bci(out *hx.Out, c bciCfg) {
 		fmt.Sscanf(fail, "conv@%d", &forcedIdx)
 		fail = "conv"
 	}
+	shape := ""
+	if strings.HasPrefix(fail, "revert:") {
+		shape = strings.TrimPrefix(fail, "revert:")
+	}
 	e.branch(func(ctx sdk.Context) {
 		s := e.s
 		var toks []token
@@ -159,9 +173,17 @@ func (e *env) bci(out *hx.Out, c bciCfg) {
 		gasCap := int64(0)
 		call := "ok"
 		refundFails := false
+		if shape != "" {
+			// the callback reverts with a chosen return data: what abi.UnpackRevert makes of it must not matter
+			code, call = codeRevertWith(shapeByName(shape).payload, e.rng.Intn(2) == 0), "shape:"+shape
+		}
 		switch fail {
 		case "revert":
 			code, call = codeRevert, "revert"
+		case "badjump":
+			code, call = codeBadJump, "shape:badjump"
+		case "underflow":
+			code, call = codeUnderflow, "shape:underflow"
 		case "storerevert":
 			code, call = codeStoreRevert, "revert"
 		case "invalid":
@@ -384,7 +406,9 @@ func (e *env) bci(out *hx.Out, c bciCfg) {
 			}
 			extra = append(extra, k)
 		}
-		if len(extra) > 0 {
+		if len(extra) > 0 && nrec == 0 {
+			out.Violate(fmt.Sprintf("bridge-call-in: failed contract call was committed as a SUCCESS: no refund record, the tokens stay converted with the receiver and the claim is consumed (point=%s; differing=%s; %s)", point, joinOrDash(categories(extra, e.chain)), cfgs))
+		} else if len(extra) > 0 {
 			out.Violate(fmt.Sprintf("bridge-call-in: failed contract call leaves more than the designated refund record, credit written outside the cache survives and the refund is taken from another address (point=%s; differing=%s; %s)", point, joinOrDash(categories(extra, e.chain)), cfgs))
 		}
 	})
@@ -578,6 +602,27 @@ func (e *env) runIBC(out *hx.Out) {
 		e.ibc(out, sc, false)
 		e.ibc(out, sc, true)
 	}
+	// every revert payload shape over the rounds, through the mimicked and the real core in turn
+	for j, sh := range e.shapesOfRound() {
+		kind := []string{"bridged", "fx"}[(j+e.round)%2]
+		e.ibc(out, "callshape-"+kind+":"+sh, (j+e.round/2)%2 == 0)
+	}
+	e.ibc(out, "callbadjump-fx", e.round%2 == 0)
+}
+
+// shapesOfRound: the empty reason always, two more shapes round-robin (every shape every four rounds)
+func (e *env) shapesOfRound() []string {
+	var rest []string
+	for _, s := range revertShapes {
+		if s.name != "error-empty" {
+			rest = append(rest, s.name)
+		}
+	}
+	out := []string{"error-empty", rest[(2*e.round)%len(rest)], rest[(2*e.round+1)%len(rest)]}
+	if hx.Tier() != "quick" {
+		out = append([]string{"error-empty"}, rest...)
+	}
+	return out
 }
 
 // coreChannel sets up a channel pair over the 09-localhost client / sentinel localhost connection of this chain, so
@@ -744,6 +789,9 @@ func (e *env) ibc(out *hx.Out, sc string, core bool) {
 			senderExists = false // CallEVM itself returns an error (no account for the intermediate sender)
 			denom, memo = fx(), mk(codeStoreSuccess)
 			mFx, mConv, mMemo, mCall = true, "-", "call", "err"
+		case "callbadjump-fx":
+			denom, memo = fx(), mk(codeBadJump)
+			mFx, mConv, mMemo, mCall = true, "-", "call", "shape:badjump"
 		case "badmemo-fx":
 			denom = fx()
 			bz, err := s.App.AppCodec().MarshalInterfaceJSON(&ibcmwtypes.IbcCallEvmPacket{To: "not-an-address", Value: sdkmath.ZeroInt(), Data: ""})
@@ -752,6 +800,21 @@ func (e *env) ibc(out *hx.Out, sc string, core bool) {
 			}
 			memo = string(bz)
 			mFx, mConv, mMemo = true, "-", "invalid"
+		default:
+			var kind, sh string
+			if i := strings.IndexByte(sc, ':'); i > 0 && strings.HasPrefix(sc, "callshape-") {
+				kind, sh = sc[len("callshape-"):i], sc[i+1:]
+			} else {
+				panic("unknown ibc scenario " + sc)
+			}
+			code := codeRevertWith(shapeByName(sh).payload, e.rng.Intn(2) == 0)
+			if kind == "fx" {
+				denom, memo = fx(), mk(code)
+				mFx, mConv = true, "-"
+			} else {
+				denom, memo = bridged(), mk(code)
+			}
+			mMemo, mCall = "call", "shape:"+sh
 		}
 		origCp := ctx.ConsensusParams()
 		if gasCap > 0 {
@@ -891,7 +954,19 @@ func (e *env) ibc(out *hx.Out, sc string, core bool) {
 // ---------------------------------------------------------------------------------------------------------
 // boundary 3: passed proposal whose message fails
 
-var govFailKinds = []string{"overdrawn", "evmrevert", "evmstorerevert", "evminvalid", "evmoog", "nocontract", "panic"}
+var govFailKinds = []string{"overdrawn", "evmrevert", "evmstorerevert", "evminvalid", "evmoog", "nocontract", "panic",
+	"evmshape:error-empty", "evmshape:error-text", "evmshape:panic", "evmshape:custom", "evmshape:malformed", "evmshape:error-long", "evmbadjump"}
+
+// govShapeCode: the code of a failing contract of kind "evmshape:<shape>" / "evmbadjump" (nil when the kind is another one)
+func (e *env) govShapeCode(kind string) []byte {
+	if kind == "evmbadjump" {
+		return codeBadJump
+	}
+	if strings.HasPrefix(kind, "evmshape:") {
+		return codeRevertWith(shapeByName(strings.TrimPrefix(kind, "evmshape:")).payload, e.rng.Intn(2) == 0)
+	}
+	return nil
+}
 
 func (e *env) runGov(out *hx.Out) {
 	n := 1 + e.rng.Intn(4)
@@ -907,6 +982,8 @@ func (e *env) runGov(out *hx.Out) {
 	for idx := 0; idx < 3; idx++ {
 		e.gov(out, 3, idx, k)
 	}
+	// a contract that reverts with an EMPTY reason, at the first / middle / last message over the rounds
+	e.gov(out, 3, e.round%3, "evmshape:error-empty")
 }
 
 // gov runs the same pre-state twice: proposal A = n messages executed by the gov account (bank sends and contract calls
@@ -1027,6 +1104,12 @@ func (e *env) gov(out *hx.Out, n, failIdx int, failKind string) {
 					panic(err)
 				}
 				msgsA = append(msgsA, &crisistypes.MsgVerifyInvariant{Sender: govAcc.String(), InvariantModuleName: govtypes.ModuleName, InvariantRoute: "module-account"})
+			default:
+				code := e.govShapeCode(failKind)
+				if code == nil {
+					panic("unknown gov failure kind " + failKind)
+				}
+				msgsA = append(msgsA, call(code))
 			}
 		}
 		actx, _ := ctx.CacheContext()
@@ -1220,6 +1303,12 @@ func (e *env) govBlock(out *hx.Out, specs []govSpec) {
 						panic(err)
 					}
 					b.msgs = append(b.msgs, &crisistypes.MsgVerifyInvariant{Sender: govAcc.String(), InvariantModuleName: govtypes.ModuleName, InvariantRoute: "module-account"})
+				default:
+					code := e.govShapeCode(sp.kind)
+					if code == nil {
+						panic("unknown gov failure kind " + sp.kind)
+					}
+					b.msgs = append(b.msgs, call(code))
 				}
 			}
 			b.ref = b.msgs
